@@ -12,8 +12,10 @@ import GuppyVerif.Model.Dataflow
     A statement is the sequence of place-level actions the visitor performs on it, in the
     visitor's order (so nested calls are covered, with their order of consumption):
     `use p borrow` = `visit_PlaceNode(p, use_kind)` (`borrow` ⇔ `BORROW`), `give p` =
-    `_reassign_single_inout_arg(p)`, `dropAfter` = a borrowed argument that is not a place and not
-    droppable (`DropAfterCallError`); then the assignment targets; `dropsLin` = an expression
+    `_reassign_single_inout_arg(p)` (also the unconditional `scope.assign` of the fresh temporaries of
+    a subscript place: `item`, `value_var`), `dropAfter` = a borrowed argument that is not a place
+    and not droppable (`DropAfterCallError`), `moveOut` = a non-borrowing use of a subscript place
+    with a non-copyable element type (`MoveOutOfSubscriptError`); then the assignment targets; `dropsLin` = an expression
     statement whose value is not droppable.
 
     The checker is modelled in its two passes:
@@ -52,6 +54,7 @@ inductive Act where
   | use (p : Place) (borrow : Bool)
   | give (p : Place)
   | dropAfter
+  | moveOut
   deriving Repr, Inhabited
 
 /-- a statement: `ast.Assign` (value, then targets), `ast.Expr` (`tgts = []`; `dropsLin` = the
@@ -88,6 +91,7 @@ inductive Err where
   | borrowShadowed        -- BorrowShadowedError
   | unnamedExprNotUsed    -- UnnamedExprNotUsedError
   | dropAfterCall         -- DropAfterCallError
+  | moveOutOfSubscript    -- MoveOutOfSubscriptError
   | usedThenLive (borrowedLeaf : Bool)  -- pass 2: AlreadyUsedError, or BorrowSubPlaceUsedError when
                                         -- the recorded later use is the implicit return of a borrowed leaf
   | crash                 -- AssertionError / KeyError: a place that is in no scope
@@ -153,6 +157,7 @@ def doAct (P : Prog) (s : Scope) : Act → R Scope
   | .use p borrow => visitPlace P borrow s p
   | .give p => .ok (givePlace s p)
   | .dropAfter => .error .dropAfterCall
+  | .moveOut => .error .moveOutOfSubscript
 
 /-- the inner loop of `_check_assign_targets` for one leaf of a target: the place stored under
     the id so far must not be an unused linear one -/
@@ -292,17 +297,23 @@ def liveOf (P : Prog) : Option (List (Blk × List Leaf)) :=
     | none => none
     | some t => some (P.blocks.map fun b => (b, t.vals b))
 
+/-- within a statement a leaf that occurs in some row (`rowIds`) is handed back only after it was
+    lent; the fresh temporaries of subscript places occur in no row and are simply bound -/
+def actsWf (rowIds : List Leaf) : List Leaf → List Act → Bool
+  | _, [] => true
+  | seen, .use p _ :: r => actsWf rowIds (seen ++ p.leaves.map (·.1)) r
+  | seen, .give p :: r => p.leaves.all (fun xk => seen.contains xk.1 || !rowIds.contains xk.1) && actsWf rowIds seen r
+  | seen, .dropAfter :: r => actsWf rowIds seen r
+  | seen, .moveOut :: r => actsWf rowIds seen r
+
+/-- the leaves that occur in a block signature or belong to a borrowed parameter -/
+def Prog.rowIds (P : Prog) : List Leaf := P.borrowedLeaves ++ P.blocks.flatMap P.row
+
 /-- executable form of `Prog.WF` (Spec/C06.lean): the shape of the CFGs the checker receives;
     the driver checks it on every extracted CFG -/
-def actsWf : List Leaf → List Act → Bool
-  | _, [] => true
-  | seen, .use p _ :: r => actsWf (seen ++ p.leaves.map (·.1)) r
-  | seen, .give p :: r => p.leaves.all (fun xk => seen.contains xk.1) && actsWf seen r
-  | seen, .dropAfter :: r => actsWf seen r
-
 def Prog.wfb (P : Prog) : Bool :=
   -- a borrowed argument is handed back only after it was lent, within the same statement
-  P.blocks.all (fun b => (P.stmts b).all fun st => actsWf [] st.acts) &&
+  P.blocks.all (fun b => (P.stmts b).all fun st => actsWf P.rowIds [] st.acts) &&
   P.blocks.contains P.entry &&
   P.blocks.all (fun b => (P.succ b).all fun c => P.blocks.contains c) &&
   P.blocks.all (fun b => !(P.succ b).contains P.entry) &&
@@ -316,6 +327,7 @@ def Prog.leafIds (P : Prog) : List Leaf :=
     | .use p _ => p.leaves.map (·.1)
     | .give p => p.leaves.map (·.1)
     | .dropAfter => []
+    | .moveOut => []
   P.borrowedLeaves ++ P.blocks.flatMap fun b =>
     P.row b ++ (P.stmts b).flatMap fun st => st.acts.flatMap ofAct ++ ofPlaces st.tgts
 
